@@ -9,6 +9,8 @@ property follow.  `kinds_independent_legacy_false` keeps the defect of the code 
 kernel-checked witness.
 -/
 import MetricsVerif.Proofs.Recency
+import MetricsVerif.Proofs.GenRace
+import MetricsVerif.Generated.SourceFacts
 
 namespace MetricsVerif.C12
 open MetricsVerif.Recency
@@ -560,5 +562,54 @@ example :
     lookup (after cfg [Op.upd .counter ['a'] (.inc 3), .observe, .adv 11, .observe, .upd .counter ['a'] (.inc 2), .observe]).metrics
         (.counter, ['a']) = some ⟨1, .c 2⟩ := by
   decide
+
+/-! ### updates racing an observation: the generation stamp never runs ahead of the value
+
+`Recency` decides "unchanged since the last observation" from the generation alone.  That is sound under
+concurrency only if an observation never pairs a generation with a value older than that generation — step
+machine `Model/GenRace.lean` (updater: value write, then generation bump; observer: generation read, then value
+read), any number of updaters and observers, EVERY interleaving. -/
+
+open MetricsVerif.GenRace in
+/-- every observation `(g, v)` recorded in any interleaving has `g ≤ v`: the value read already contains the
+    first `g` updates, and nothing beyond what was applied -/
+theorem stamp_never_ahead_of_value (updates observations : List Nat) (sched : List Nat)
+    (o : Obs) (ho : o ∈ (GenRace.run (GenRace.init false updates observations) sched).obss) (p : Nat × Nat) (hp : p ∈ o.seen) :
+    p.1 ≤ p.2 ∧ p.2 ≤ (GenRace.run (GenRace.init false updates observations) sched).applied :=
+  (run_inv (total updates) sched _ (init_inv updates observations)).seen o ho p hp
+
+open MetricsVerif.GenRace in
+/-- once the updaters are done: an observation stamped with the final generation has read the final value — so a
+    later observation that finds the generation unchanged may rightly conclude that nothing changed since -/
+theorem final_stamp_means_final_value (updates observations : List Nat) (sched : List Nat)
+    (hq : quiescent (GenRace.run (GenRace.init false updates observations) sched) = true)
+    (o : Obs) (ho : o ∈ (GenRace.run (GenRace.init false updates observations) sched).obss) (p : Nat × Nat) (hp : p ∈ o.seen)
+    (hg : p.1 = (GenRace.run (GenRace.init false updates observations) sched).gen) :
+    p.2 = (GenRace.run (GenRace.init false updates observations) sched).applied
+      ∧ (GenRace.run (GenRace.init false updates observations) sched).applied = total updates := by
+  have hI := run_inv (total updates) sched _ (init_inv updates observations)
+  obtain ⟨h1, h2⟩ := hI.seen o ho p hp
+  obtain ⟨q1, q2⟩ := quiescent_sums _ hq
+  have ha := hI.acct
+  have hl := hI.left
+  omega
+
+/-- the order is what this rests on: with the generation bumped BEFORE the value write, one updater and one
+    observer reach an observation stamped with the final generation that shows the old value -/
+theorem bump_first_breaks :
+    let s := GenRace.run (GenRace.init true [1] [1]) [0, 1, 1, 0]
+    GenRace.quiescent s = true ∧ s.gen = 1 ∧ s.applied = 1 ∧ (s.obss.map (·.seen)) = [[(1, 0)]] := by decide
+
+/-- non-vacuity: two updaters and an observer that reads between a value write and its generation bump -/
+example :
+    let s := GenRace.run (GenRace.init false [2, 1] [2]) [0, 2, 1, 2, 0, 1, 0, 0, 2, 2]
+    GenRace.quiescent s = true ∧ (s.obss.map (·.seen)) = [[(0, 2), (3, 3)]] := by decide
+
+/-- source facts (regenerated from /repo on every run): `with_increment` applies the closure and only then bumps
+    the generation; the exporter reads the generation before the value, for counters and for gauges -/
+theorem src_generation_order :
+    Generated.gen_with_increment_steps = ["apply", "bump:fetch_add"]
+    ∧ Generated.prom_counter_read_order = ["generation", "value:load"]
+    ∧ Generated.prom_gauge_read_order = ["generation", "value:load"] := by decide
 
 end MetricsVerif.C12
